@@ -388,10 +388,25 @@ def processPass (c : H2Conn) (budget : Nat) : Res :=
 def processQuiesce : Nat → H2Conn → Res
   | 0, c => (c, [])
   | fuel + 1, c =>
-    let (c', o) := processPass c 262144
-    if o.isEmpty then (c', []) else
-      let (c'', o') := processQuiesce fuel c'
-      (c'', o ++ o')
+    let r := processPass c 262144
+    if r.2.isEmpty then (r.1, []) else
+      let r' := processQuiesce fuel r.1
+      (r'.1, r.2 ++ r'.2)
+
+/-- a HEADERS frame that needs a stream slot while all are taken and one is about to be retired -/
+def needsSlot (c : H2Conn) (f : FrameIn) : Bool :=
+  match f with
+  | .headers sid _ _ _ _ _ =>
+    c.goaway = 0 && sid > c.cid && sid % 2 = 1 && c.streams.length ≥ Extracted.h2MaxStreams
+      && c.streams.any (·.err)
+  | _ => false
+
+def preSlot (c : H2Conn) (f : FrameIn) : Res :=
+  if needsSlot c f then processPass c 262144 else (c, [])
+
+/-- h2_parse_frames() returned 0: one processing pass happens before parsing resumes -/
+def postStop (c : H2Conn) : Res :=
+  if c.stop then processPass { c with stop := false } 262144 else (c, [])
 
 /-- a batch of frames read at once, then stream processing until quiescence.
     A HEADERS frame arriving while all slots are taken and some stream is about to be
@@ -399,22 +414,15 @@ def processQuiesce : Nat → H2Conn → Res
 def recvBatch : H2Conn → List FrameIn → Res
   | c, [] => (c, [])
   | c, f :: rest =>
-    let needsSlot : Bool :=
-      match f with
-      | .headers sid _ _ _ _ _ =>
-        c.goaway = 0 && sid > c.cid && sid % 2 = 1 && c.streams.length ≥ Extracted.h2MaxStreams
-          && c.streams.any (·.err)
-      | _ => false
-    let (c0, o0) := if needsSlot then processPass c 262144 else (c, [])
-    let (c1, o1) := recvFrame c0 f
-    -- h2_parse_frames() returned 0: one processing pass happens before parsing resumes
-    let (c1', o1') := if c1.stop then processPass { c1 with stop := false } 262144 else (c1, [])
-    let (c2, o2) := recvBatch c1' rest
-    (c2, o0 ++ o1 ++ o1' ++ o2)
+    let r0 := preSlot c f
+    let r1 := recvFrame r0.1 f
+    let r2 := postStop r1.1
+    let r3 := recvBatch r2.1 rest
+    (r3.1, r0.2 ++ r1.2 ++ r2.2 ++ r3.2)
 
 def h2Step (c : H2Conn) (batch : List FrameIn) : Res :=
-  let (c1, o1) := recvBatch c batch
-  let (c2, o2) := processQuiesce 100000 c1
-  (c2, o1 ++ o2)
+  let r1 := recvBatch c batch
+  let r2 := processQuiesce 100000 r1.1
+  (r2.1, r1.2 ++ r2.2)
 
 end LtVerif
